@@ -9,6 +9,7 @@ import Libvna.Driver.FFDrv
 import Libvna.Model.PValue
 import Libvna.Driver.PropDrv
 import Libvna.Driver.CalDrv
+import Libvna.Model.Leakage
 open Libvna
 
 structure DState where
@@ -43,6 +44,38 @@ def stepConvN (args : List String) : String :=
       match Libvna.ConvN.call CF.abs CF.conj CF.sqa fn m z0 n with
       | some r => if r.size == 0 then "ok" else "ok " ++ joinHex r.toList
       | none => "bad-op"
+    | _, _ => "bad-args"
+  | _ => "bad-args"
+
+/-- `lk ncells nstd <per standard, per cell: x (not given) | c (connected or diagonal) | re im>`: the leakage term of every cell -/
+def stepLk (args : List String) : String :=
+  match args with
+  | nc :: ns :: rest =>
+    match nc.toNat?, ns.toNat? with
+    | some ncells, some nstd =>
+      -- parse the standards
+      let rec go (fuel : Nat) (toks : List String) (cell : Nat) (cur : List (Option CF × Bool)) (acc : List (List (Option CF × Bool))) :
+          Option (List (List (Option CF × Bool))) :=
+        match fuel with
+        | 0 => none
+        | fuel + 1 =>
+          if cell = ncells then go fuel toks 0 [] (acc ++ [cur])
+          else match toks with
+            | [] => if cur.isEmpty && cell = 0 then some acc else none
+            | "x" :: tl => go fuel tl (cell + 1) (cur ++ [(none, false)]) acc
+            | "c" :: tl => go fuel tl (cell + 1) (cur ++ [(none, true)]) acc
+            | re :: im :: tl =>
+              match floatOfHex? re, floatOfHex? im with
+              | some x, some y => go fuel tl (cell + 1) (cur ++ [(some ⟨x, y⟩, false)]) acc
+              | _, _ => none
+            | _ => none
+      match go (rest.length + nstd + 2) rest 0 [] [] with
+      | some stds =>
+        if stds.length != nstd then "bad-args" else
+        let sl : List (Libvna.LK.Std CF) := stds.map fun s =>
+          { m := fun c => ((s[c]?).map (·.1)).join, conn := fun c => ((s[c]?).map (·.2)).getD false }
+        "ok " ++ joinHex ((List.range ncells).map fun c => Libvna.LK.leak sl c)
+      | none => "bad-args"
     | _, _ => "bad-args"
   | _ => "bad-args"
 
@@ -107,6 +140,7 @@ def step (st : DState) (line : String) : DState × String :=
   | "conv" :: rest => (st, stepConv rest)
   | "convn" :: rest => (st, stepConvN rest)
   | "num" :: rest => (st, stepNum rest)
+  | "lk" :: rest => (st, stepLk rest)
   | "ff" :: rest => (st, Libvna.Drv.stepFF rest)
   | "npd" :: rest => (st, Libvna.Drv.stepNpd rest)
   | "iter" :: rest => (st, Libvna.Drv.stepIter rest)
